@@ -44,7 +44,7 @@ func init() {
 }
 
 func floorsC19() map[string]int64 {
-	return map[string]int64{"query.connected": 5000, "query.disconnected": 200, "query.same_node": 100, "query.optimal_differs_from_fewest_links": 200, "minimise.Distance": 300, "minimise.Time": 300, "topology.detour": 100, "topology.two_components": 100, "topology.grid": 100, "topology.tree": 100, "topology.near_tie_lattice": 100, "query.on_node": 1000, "order.fastest_first": 100, "order.incremental_queries_between_addlinks": 300, "incremental.link_between_existing_nodes_after_query": 300}
+	return map[string]int64{"query.connected": 5000, "query.disconnected": 200, "query.same_node": 100, "query.optimal_differs_from_fewest_links": 200, "minimise.Distance": 300, "minimise.Time": 300, "topology.detour": 100, "topology.two_components": 100, "topology.grid": 100, "topology.tree": 100, "topology.near_tie_lattice": 100, "query.on_node": 1000, "order.fastest_first": 100, "query.nearly_equal_points_across_a_bisector": 500, "order.incremental_queries_between_addlinks": 300, "incremental.link_between_existing_nodes_after_query": 300}
 }
 
 type link struct {
@@ -458,6 +458,19 @@ func runQueries(c *core.Ctx, r *gen.R, net *route.Network, nw *netw, nq, added i
 			return geom.Point{X: b.X + r.Range(-0.6, 0.6)*s/4, Y: b.Y + r.Range(-0.6, 0.6)*s/4}
 		}
 		from, to = pick(), pick()
+		if r.Chance(0.1) && len(nw.links) > 0 {
+			// two query points that are almost the same point (a relative 1e-12 .. 1e-6 of their
+			// coordinates apart) on either side of the bisector between the end nodes of a link
+			l := nw.links[r.Intn(len(nw.links))]
+			a, b := nw.nodes[l.a], nw.nodes[l.b]
+			mx, my := (a.X+b.X)/2, (a.Y+b.Y)/2
+			dx, dy := b.X-a.X, b.Y-a.Y
+			d := math.Hypot(dx, dy)
+			eps := math.Max(math.Abs(mx), math.Abs(my)) * math.Pow(10, r.Range(-12, -6))
+			from = geom.Point{X: mx - eps*dx/d, Y: my - eps*dy/d}
+			to = geom.Point{X: mx + eps*dx/d, Y: my + eps*dy/d}
+			c.Count("query.nearly_equal_points_across_a_bisector")
+		}
 		s, ok1 := nearest(from)
 		t, ok2 := nearest(to)
 		if !ok1 || !ok2 {
